@@ -338,6 +338,10 @@ func (g *XSyn) Stmt(d int) string {
 		return "return" + fw.Pick(r, []string{"", " " + g.Expr(d), " " + g.Expr(d) + ", " + g.Expr(d)})
 	case 21:
 		lbl := fw.Pick(r, []string{"L", "Outer"})
+		if r.Chance(1, 4) {
+			// a label as the last item of a block (labels an empty statement)
+			return "{" + g.nl() + "\tgoto " + lbl + "end" + g.nl() + "\t" + g.Stmt(d-1) + g.nl() + lbl + "end:" + g.nl() + "}"
+		}
 		return lbl + ":" + g.nl() + "for " + g.Block(d)
 	case 22:
 		return fw.Pick(r, []string{"break", "continue", "goto L", "break L", "continue Outer"})
@@ -379,6 +383,12 @@ func (g *XSyn) Stmt(d int) string {
 	case 38:
 		return g.primary(g.call(d)) + fw.Pick(r, []string{"!", "?"})
 	default:
+		switch r.Intn(4) {
+		case 0:
+			return "echo [" + g.simpleList(2) + ";]" // one-line matrix with a single row
+		case 1:
+			return "echo [" + g.simpleList(2) + "; " + g.simpleList(2) + "]" // one-line matrix
+		}
 		return "echo [" + g.nl() + "\t" + g.simpleList(2) + g.nl() + "\t" + g.simpleList(2) + g.nl() + "]" // matrix literal
 	}
 }
